@@ -603,7 +603,8 @@ func runScript(t *testing.T, sc scriptJ, w *bufio.Writer) {
 		enc(end)
 	}()
 	synctest.Test(t, func(t *testing.T) {
-		r := &run{sc: sc, tr: &tracer{start: time.Now()}, lis: newFakeListener(),
+		tr := &tracer{start: time.Now()}
+		r := &run{sc: sc, tr: tr, lis: newFakeListener(tr),
 			plugins: map[string]*recPlugin{}, byAddr: map[string]string{},
 			conns: map[string]*fakeConn{}, dials: map[string][]*pendingDial{},
 			nDials: map[string]int{}}
